@@ -50,7 +50,7 @@ P = {
          'drops only terms below tolerance, leaves distinct strings with zero phases; trace semantics. trace() phase defect refuted in Coq and reported as known finding. PARTIAL: IEEE rounding not modelled.',
          'Coq proof (ring homomorphism into monomial-matrix semantics) + expression-tree correspondence with dense oracle', '5/C15'),
  'C16': ('Theorems: random_pair is valid and exactly two-to-one for every accepted draw; recursion step; EXACT uniformity of random_clifford over Sp(2,2) (6) and Sp(4,2) (720) by enumeration of all 12 / 2880 '
-         'accepted raw draws; for ALL N the whole recursion returns a table with the canonical commutation relations whose first pair is the drawn pair; entangles. PARTIAL: fairness of the generators and rejection sampling are assumptions; chi-square support.',
+         'accepted raw draws; for ALL N the whole recursion returns a table with the canonical commutation relations whose first pair is the drawn pair, and is a BIJECTION from accepted draw sequences onto the symplectic tables (exact uniformity for every N given fair bits); entangles. PARTIAL: fairness of the generators and rejection sampling are assumptions; chi-square support.',
          'Coq proof + complete enumeration (vm_compute) + replay of recorded draws through the model', '5/C16'),
  'C17': ('Memory-model theorems (frame rule): a copy with fresh arrays is faithful, shares nothing and stays independent under every history; queries (empty footprint) and in-place operations change '
          'nothing outside the receiver; the copy table regenerated from source shows every array attribute passed fresh and well bound. numpy/torch aliasing semantics are modelled; validated dynamically.',
